@@ -182,35 +182,51 @@ def model_to_float(env):
 
 
 def check_many(assert_lists, timeout_each=5, solver='z3'):
-    """several independent queries in ONE solver process, separated by (reset) (not push/pop: the
-    incremental core does not run nlsat).  Returns a list of 'unsat' | 'sat' | 'unknown' | 'error'."""
-    parts = []
-    for asserts in assert_lists:
+    """several independent queries.  First ONE solver process for all of them, separated by (reset) (never push/pop: the
+    incremental core does not run nlsat), under a HARD process time limit; queries left unanswered when the process is
+    killed (z3 4.8.12 can hang on its own soft timeout inside a script) are then asked one process each with -T.
+    Returns a list of 'unsat' | 'sat' | 'unknown' | 'error'."""
+    n = len(assert_lists)
+    texts = []
+    pre_res = [None] * n
+    for k, asserts in enumerate(assert_lists):
         asserts = [a for a in asserts if a is not sr.TRUE]
         if any(a is sr.FALSE for a in asserts):
-            parts.append('(echo "unsat")\n')
-            continue
+            pre_res[k] = 'unsat'; texts.append(None); continue
         if not asserts:
-            parts.append('(echo "sat")\n')
-            continue
+            pre_res[k] = 'sat'; texts.append(None); continue
         decls, defs, name, ufs, vnames = sr.emit(asserts)
-        lines = decls + defs
-        lines += ['(assert %s)' % name[a.id] for a in asserts]
-        lines += ['(check-sat)', '(reset)']
-        parts.append('\n'.join(lines) + '\n')
-    text = ''.join(parts)
-    t = time.time()
-    cmd = [Z3 if solver == 'z3' else Z3NEW, '-in', '-t:%d' % int(timeout_each * 1000)]      # -t: soft timeout per check-sat
-    try:
-        p = subprocess.run(cmd, input=text, capture_output=True, text=True, timeout=timeout_each * len(assert_lists) + 30)
-        out = p.stdout
-    except subprocess.TimeoutExpired:
-        out = ''
-    dt = time.time() - t
-    res = [l.strip() for l in out.split('\n') if l.strip() in ('sat', 'unsat', 'unknown') or l.strip().startswith('(error')]
-    res = [('error' if r.startswith('(error') else r) for r in res]
-    while len(res) < len(assert_lists):
-        res.append('unknown')
-    for r in res[:len(assert_lists)]:
-        _stat(solver + '-script', r, dt / max(1, len(assert_lists)))
-    return res[:len(assert_lists)]
+        lines = decls + defs + ['(assert %s)' % name[a.id] for a in asserts] + ['(check-sat)']
+        texts.append('\n'.join(lines) + '\n')
+    todo = [k for k in range(n) if pre_res[k] is None]
+    res = list(pre_res)
+    if todo:
+        script = ''.join(texts[k] + '(echo "done-%d")\n(reset)\n' % k for k in todo)
+        hard = int(max(15, min(120, 0.5 * len(todo) + 2 * timeout_each)))
+        t = time.time()
+        try:
+            p = subprocess.run([Z3 if solver == 'z3' else Z3NEW, '-in', '-T:%d' % hard], input=script, capture_output=True,
+                               text=True, timeout=hard + 15)
+            out = p.stdout
+        except subprocess.TimeoutExpired as e:
+            out = e.stdout.decode() if isinstance(e.stdout, bytes) else (e.stdout or '')
+        dt = time.time() - t
+        last = None
+        for line in out.split('\n'):
+            line = line.strip().strip('"')
+            if line in ('sat', 'unsat', 'unknown'):
+                last = line
+            elif line.startswith('(error'):
+                last = 'error'
+            elif line.startswith('done-'):
+                k = int(line[5:])
+                res[k] = last or 'unknown'
+                last = None
+        answered = [k for k in todo if res[k] is not None]
+        for k in answered:
+            _stat(solver + '-script', res[k], dt / max(1, len(answered)))
+        for k in todo:
+            if res[k] is None or res[k] in ('unknown', 'error'):
+                r, _, _ = run_solver(texts[k], solver, timeout_each)
+                res[k] = r if r in ('sat', 'unsat') else 'unknown'
+    return res
